@@ -687,6 +687,10 @@ impl<C: Autocomplete + Help> Model for SessModel<C> {
         self.cfg.events.clone()
     }
 
+    fn checked_prefill(&self) -> Vec<(String, Vec<Ev>)> {
+        self.cfg.prefilled.clone()
+    }
+
     fn key(&self, s: &Sess) -> SKey {
         let mut k = skey(s);
         if !(self.cfg.mon.term || self.cfg.mon.framing) {
